@@ -487,6 +487,49 @@ func fdaFDConnCloseScenario(x *fdaCtx) {
 	fdaClose(b)
 }
 
+// The descriptor part of the close callbacks runs again after the connection is closed (what a second run of the
+// callbacks would do, see property C05): netFD.Close is called directly, also from several goroutines at once.
+// Only the `closed` counter stands between this and a second close(2).
+func fdaCloseAgainScenario(x *fdaCtx) {
+	a, b, ok := fdaSocketpair(x)
+	if !ok {
+		return
+	}
+	x.usePollManager()
+	x.kind("fdConn %d 6", a)
+	x.know("conn_detach", false)
+	x.know("conn_viaServer", false)
+	x.know("prepare_closes", false)
+	fdaMark("G %d", a)
+	c, err := NewFDConnection(a)
+	if err != nil {
+		x.failf("NewFDConnection: %v", err)
+		return
+	}
+	conn := c.(*connection)
+	c.Close()
+	time.Sleep(time.Duration(x.rnd.Intn(300)) * time.Microsecond)
+	conn.netFD.Close()
+	var wg sync.WaitGroup
+	for i := 0; i < 3; i++ {
+		wg.Add(1)
+		go func() { defer wg.Done(); conn.netFD.Close() }()
+	}
+	wg.Wait()
+	fdaClose(b)
+	// the same on a netFD that never became a connection (the value socket() hands to its caller)
+	p, q, ok := fdaSocketpair(x)
+	if !ok {
+		return
+	}
+	x.kind("fdConn %d 6", p)
+	fdaMark("G %d", p)
+	nfd := &netFD{fd: p}
+	nfd.Close()
+	nfd.Close()
+	fdaClose(q)
+}
+
 // Detach: the descriptor goes back to the caller open
 func fdaDetachScenario(x *fdaCtx) {
 	a, b, ok := fdaSocketpair(x)
@@ -837,6 +880,7 @@ func fdaScenarios() []fdaScenario {
 		{name: "shutdown-closes-conns", run: fdaShutdownScenario},
 		{name: "prepare-closes", run: fdaPrepareCloseScenario},
 		{name: "fdconn-close", run: fdaFDConnCloseScenario},
+		{name: "close-again", run: fdaCloseAgainScenario},
 		{name: "detach", run: fdaDetachScenario},
 		{name: "register-fails", run: fdaRegisterFailScenario},
 		{name: "create-listener-tcp", run: fdaListenerScenario("tcp", false)},
